@@ -1,9 +1,114 @@
 import Drivers.Proto
-/-! Model driver for property C18 (stub: no model operations registered yet). -/
-open Lean Proto
+import St4sd.Model.Confine
+/-! Model driver for property C18.
+
+Requests (all paths are strings; the sandbox root is written `/S` by the harness):
+* `{"op":"extract","fixed":bool,"dest":"/S/..","fs":[[path,kind,target],..],"members":[[kind,name,target],..]}`
+* `{"op":"deploy","fixed":bool,"validate":bool,"target":"/S/..","fs":[..],"entries":[[key,src,method],..],"confIsKey":bool}`
+* `{"op":"copy"|"link","dest":..,"fs":..,"ref":"..","kind":"file"|"dir"}`
+Answer: `{"result":"ok"|"rejected"|"os"|"linkMissing","tree":[[path,kind,target],..],"log":[path,..]}` with the tree
+restricted to locations reachable by listing (every bound location whose ancestors are directories), sorted.
+-/
+open Lean Proto St4sd.Confine St4sd.Str
+
+def physOf (s : String) : Path := ((parsePath s.toList).segs.filterMap fun
+  | Seg.name n => some n
+  | Seg.up => none).reverse
+
+def pathStr (p : Path) : String := "/" ++ String.intercalate "/" (p.reverse.map String.ofList)
+
+def segsStr (a : Bool) (t : List Seg) : String :=
+  (if a then "/" else "") ++ String.intercalate "/" (t.map fun
+    | Seg.name n => String.ofList n
+    | Seg.up => "..")
+
+def parseFs (j : Json) : Except String Fs := do
+  let rows ← getArr j "fs"
+  rows.mapM fun r => do
+    let a ← r.getArr?
+    let p ← (a[0]!).getStr?
+    let k ← (a[1]!).getStr?
+    let t ← (a[2]!).getStr?
+    let node := match k with
+      | "dir" => Node.dir
+      | "file" => Node.file (physOf p)
+      | _ => let rp := parsePath t.toList; Node.link rp.abs rp.segs
+    return (physOf p, node)
+
+def parseMember (r : Json) : Except String Member := do
+  let a ← r.getArr?
+  let k ← (a[0]!).getStr?
+  let n := parsePath (← (a[1]!).getStr?).toList
+  let t := parsePath (← (a[2]!).getStr?).toList
+  match k with
+  | "file" => return Member.file n
+  | "dir" => return Member.dir n
+  | "sym" => return Member.sym n t
+  | "hard" => return Member.hard n t
+  | _ => throw s!"unknown member kind {k}"
+
+def parseEntry (r : Json) : Except String Entry := do
+  let a ← r.getArr?
+  let key := parsePath (← (a[0]!).getStr?).toList
+  let src := (parsePath (← (a[1]!).getStr?).toList).segs
+  let m ← (a[2]!).getStr?
+  return { key := key, src := src, method := if m == "link" then Method.link else Method.copy }
+
+/-- distinct bound locations, first binding wins -/
+def keysOf (fs : Fs) : List Path := fs.foldl (fun acc (p, _) => if acc.contains p then acc else p :: acc) []
+
+/-- visible in a recursive listing: all proper ancestors are directories -/
+def visible (fs : Fs) : Nat → Path → Bool
+  | 0, _ => true
+  | _, [] => true
+  | f + 1, _ :: par => fs.isDir par && visible fs f par
+
+def treeJson (fs : Fs) : Json :=
+  let rows := (keysOf fs).filterMap fun p =>
+    if !visible fs 64 p then none else
+    match fs.get p with
+    | some Node.dir => some (pathStr p, "dir", "")
+    | some (Node.file _) => some (pathStr p, "file", "")
+    | some (Node.link a t) => some (pathStr p, "link", segsStr a t)
+    | none => none
+  let sorted := rows.toArray.qsort (fun a b => a.1 < b.1)
+  jarr (sorted.toList.map fun (p, k, t) => jarr [jstr p, jstr k, jstr t])
+
+def answer (r : St × Option Err) : Json :=
+  let res := match r.2 with
+    | none => "ok"
+    | some Err.rejected => "rejected"
+    | some Err.os => "os"
+    | some Err.linkMissing => "linkMissing"
+    | some Err.linkConflict => "linkConflict"
+  let log := (r.1.log.map pathStr).toArray.qsort (· < ·)
+  jobj [("result", jstr res), ("tree", treeJson r.1.fs), ("log", jarr (log.toList.eraseDups.map jstr))]
 
 def handle (j : Json) : Except String Json := do
   let op ← getStr j "op"
-  throw s!"unknown op {op}"
+  let fs ← parseFs j
+  match op with
+  | "extract" =>
+    let dest := physOf (← getStr j "dest")
+    let ms ← (← getArr j "members").mapM parseMember
+    let fixed ← getBool j "fixed"
+    return answer (if fixed then stageExtractFixed dest ⟨fs, []⟩ ms else stageExtractOld dest ⟨fs, []⟩ ms)
+  | "deploy" =>
+    let target := physOf (← getStr j "target")
+    let es ← (← getArr j "entries").mapM parseEntry
+    let fixed ← getBool j "fixed"
+    let validate ← getBool j "validate"
+    let k ← getBool j "confIsKey"
+    return answer (if validate then loadAndDeploy fixed target ⟨fs, []⟩ es k else deploy fixed target ⟨fs, []⟩ es k)
+  | "copy" =>
+    let dest := physOf (← getStr j "dest")
+    let ref ← getChars j "ref"
+    let kind ← getStr j "kind"
+    return answer (stageCopy dest ⟨fs, []⟩ ref (if kind == "dir" then RefKind.dir else RefKind.file))
+  | "link" =>
+    let dest := physOf (← getStr j "dest")
+    let ref ← getChars j "ref"
+    return answer (stageLink dest ⟨fs, []⟩ ref)
+  | _ => throw s!"unknown op {op}"
 
 def main : IO Unit := serve handle
